@@ -32,6 +32,14 @@ func (c *Collection) Condense(treatErrorAsTerminal bool) (Provider, error) {
 	if len(c.contents) == 0 {
 		return c, nil
 	}
+	// work on a private copy: the collection and its providers are shared
+	// with every other user of c
+	{
+		contents := make([]*provider, len(c.contents))
+		copy(contents, c.contents)
+		contents[len(contents)-1] = contents[len(contents)-1].copy()
+		c = &Collection{name: c.name, contents: contents}
+	}
 	last := c.contents[len(c.contents)-1]
 	last.required = true
 	lastType := reflect.TypeOf(last.fn)
